@@ -4,12 +4,18 @@ from hutil import S, unS, err, exc_code, enc_val
 
 MODEL = "C06"
 PROP_FILES = ["Props/C06.v"]
-RULE = ("op sequences over a 20-op alphabet (add option / command option with aliases / argument / command name, set_* "
-        "replacements) drawn from a colliding name pool, on 0, 1 and 2 levels of base format (one chain with an empty level on top of a defining one); exhaustive to length 3 (quick) / 4 "
-        "(thorough), seeded random to length 7; after every op the exception class and the full query vector of the builder and of "
-        "builder.format are compared, plus ArgsFormat(elements, base) for add-only sequences; non-trivial = >= 1 rejection or >= 2 "
-        "accepted elements; distinct by (bases, ops)")
-TRUSTED = []
+RULE = ("op sequences over a 29-op alphabet (add option / command option with aliases / argument / command name; set_* "
+        "replacements with varied contents: empty, one, a valid pair, a pair whose second element is rejected, three elements) "
+        "drawn from a colliding name pool, on 0, 1 and 2 levels of base format (5 chains: one with an empty level on top of a "
+        "defining one, one whose base holds an option without short name, a command option without short name but a short alias "
+        "and a required multi-valued argument); exhaustive to length 3 (quick) / 4 (thorough) over the 21 core ops x 4 chains and "
+        "to length 2 over all 29 ops x 5 chains, seeded random to length 7; after every op the exception class and the full "
+        "query vector (command names WITH aliases, positions -2..6) of the builder and of builder.format are compared, the "
+        "format finished BEFORE the op is queried again after it (a finished format stays what it was), plus "
+        "ArgsFormat(elements, base) for add-only sequences; a family built through CommandConfig.add_option/add_argument/"
+        "build_args_format on the same bases; non-trivial = >= 1 rejection or >= 2 accepted elements; distinct by (bases, ops)")
+TRUSTED = ["that a finished format does not change when its builder moves on is checked on the implementation only (in the model a "
+           "format is a value)"]
 ASSUMPTIONS = ["elements are valid Option/CommandOption/Argument/CommandName objects (their construction is C07)"]
 
 POOL = ["foo", "f", "bar", "b", "cmd", "c", "arg1", "arg2", "multi", "yy", "z", "baz", "other", "arg3"]
@@ -37,31 +43,59 @@ def e_cname(c):
     return [3, [S(c[0]), [S(a) for a in c[1]]]]
 
 
-ALPHA = ([e_opt(o) for o in OPTS] + [e_copt(c) for c in COPTS] + [e_arg(a) for a in ARGS] + [e_cname(c) for c in CNAMES] +
-         [[4, [e_opt(OPTS[1])[1], e_opt(OPTS[3])[1]]], [5, [e_copt(COPTS[1])[1]]],
-          [6, [e_arg(ARGS[1])[1], e_arg(ARGS[5])[1]]], [7, [e_cname(CNAMES[1])[1]]]])
+CORE = ([e_opt(o) for o in OPTS] + [e_copt(c) for c in COPTS] + [e_arg(a) for a in ARGS] + [e_cname(c) for c in CNAMES] +
+        [[4, [e_opt(OPTS[1])[1], e_opt(OPTS[3])[1]]], [5, [e_copt(COPTS[1])[1]]],
+         [6, [e_arg(ARGS[1])[1], e_arg(ARGS[5])[1]]], [7, [e_cname(CNAMES[1])[1]]]])
+# set_* with other contents: nothing at all, a valid pair, three elements
+MORE = [[4, []], [4, [e_opt(OPTS[1])[1], e_opt(OPTS[3])[1], e_opt(OPTS[2])[1]]],
+        [5, []],
+        [6, []], [6, [e_arg(ARGS[0])[1], e_arg(ARGS[1])[1]]], [6, [e_arg(ARGS[0])[1], e_arg(ARGS[1])[1], e_arg(ARGS[3])[1]]],
+        [7, []], [7, [e_cname(CNAMES[1])[1], e_cname(CNAMES[0])[1]]]]
+ALPHA = CORE + MORE
 BASES = [[],
          [[e_opt(OPTS[1]), e_arg(ARGS[0]), e_cname(CNAMES[0])]],
          [[e_copt(["cmd", "c", ["yy"], []]), e_arg(ARGS[0])], [e_opt(OPTS[0]), e_arg(ARGS[1]), e_cname(["server", []])]],
          # an EMPTY level on top of a level that defines things (a format object that lists nothing of its own must still
          # pass on what its base defines: seeded change C06-f)
-         [[e_opt(OPTS[0]), e_copt(["cmd", "c", ["yy"], []]), e_arg(ARGS[1]), e_arg(ARGS[3])], []]]
+         [[e_opt(OPTS[0]), e_copt(["cmd", "c", ["yy"], []]), e_arg(ARGS[1]), e_arg(ARGS[3])], []],
+         # shapes that otherwise only occur at the top level: an option without short name, a command option without short
+         # name of its own but with a short alias, a required multi-valued argument, a command name with an alias
+         [[e_opt(OPTS[2]), e_copt(COPTS[4]), e_arg(ARGS[4]), e_cname(CNAMES[0])]]]
+# a command configuration: name (+ aliases, or anonymous), options and arguments free of collisions among themselves, stacked
+# on a base through CommandConfig.build_args_format
+CONFIGS = [[CNAMES[0], 0, [OPTS[0]], [ARGS[0]]], [CNAMES[0], 0, [OPTS[1], OPTS[2]], [ARGS[0], ARGS[1]]],
+           [CNAMES[1], 0, [], [ARGS[1], ARGS[3]]], [CNAMES[1], 1, [OPTS[3]], [ARGS[4]]], [CNAMES[0], 1, [], []],
+           [CNAMES[0], 0, [OPTS[2], OPTS[1]], [ARGS[5], ARGS[1], ARGS[3]]], [CNAMES[1], 0, [OPTS[1]], [ARGS[2]]]]
 
 
 def gen(rng, tier, info):
     depth = {"quick": 3, "thorough": 4, "search": 2}[tier]
     nrand = {"quick": 3000, "thorough": 40000, "search": 2000}[tier]
     cases = []
-    for bi, b in enumerate(BASES):
+    for bi, b in enumerate(BASES[:4]):
         for k in range(1, depth + 1):
-            for seq in itertools.product(ALPHA, repeat=k):
+            for seq in itertools.product(CORE, repeat=k):
                 cases.append({"bases": b, "ops": list(seq), "every": 0})
+    n_core = len(cases)
+    for b in BASES:
+        for k in (1, 2):
+            for seq in itertools.product(ALPHA, repeat=k):
+                if b is BASES[4] or any(o in MORE for o in seq):
+                    cases.append({"bases": b, "ops": list(seq), "every": 1})
     n_ex = len(cases)
     for _ in range(nrand):
-        k = rng.randint(depth + 1, 7)
+        k = rng.randint(3, 7)
         cases.append({"bases": rng.choice(BASES), "ops": [rng.choice(ALPHA) for _ in range(k)], "every": 1})
+    # through CommandConfig: the same elements as an add-only sequence (name, options, arguments)
+    n_cfg = 0
+    for b in BASES:
+        for cn, anon, os_, as_ in CONFIGS:
+            ops = ([] if anon else [e_cname(cn)]) + [e_opt(o) for o in os_] + [e_arg(a) for a in as_]
+            cases.append({"bases": b, "ops": ops, "every": 1, "cfg": [cn, anon, os_, as_]})
+            n_cfg += 1
     info["exhaustive"] = True
-    info["distribution"] = {"exhaustive": n_ex, "max_len": depth, "random": nrand, "alphabet": len(ALPHA), "base_configs": len(BASES)}
+    info["distribution"] = {"exhaustive_core": n_core, "exhaustive_len2_all_ops": n_ex - n_core, "max_len": depth, "random": nrand,
+                            "alphabet": len(ALPHA), "core_alphabet": len(CORE), "base_configs": len(BASES), "command_configs": n_cfg}
     return cases
 
 
@@ -111,13 +145,13 @@ def _res(fn, enc):
 
 def qvec1(f, incl):
     return [
-        [S(c.string) for c in f.get_command_names(incl)],
+        [[S(c.string), [S(a) for a in c.aliases]] for c in f.get_command_names(incl)],
         int(f.has_command_names(incl)),
         [[int(f.has_command_option(n, incl)), _res(lambda: f.get_command_option(n, incl), lambda c: S(c.long_name))] for n in POOL],
         [S(c.long_name) for c in f.get_command_options(incl)],
         int(f.has_command_options(incl)),
         [[int(f.has_argument(n, incl)), _res(lambda: f.get_argument(n, incl), lambda a: S(a.name))] for n in POOL],
-        [[int(f.has_argument(i, incl)), _res(lambda: f.get_argument(i, incl), lambda a: S(a.name))] for i in range(6)],
+        [[int(f.has_argument(i, incl)), _res(lambda: f.get_argument(i, incl), lambda a: S(a.name))] for i in POSITIONS],
         [[S(n), int(a.is_required()), int(a.is_multi_valued())] for n, a in f.get_arguments(incl).items()],
         [int(f.has_multi_valued_argument(incl)), int(f.has_optional_argument(incl)), int(f.has_required_argument(incl)), int(f.has_arguments(incl))],
         [[int(f.has_option(n, incl)), _res(lambda: f.get_option(n, incl), lambda o: S(o.long_name))] for n in POOL],
@@ -126,8 +160,27 @@ def qvec1(f, incl):
     ]
 
 
+POSITIONS = [-2, -1, 0, 1, 2, 3, 4, 5, 6]
+
+
 def qvec(f):
     return [qvec1(f, True), qvec1(f, False)]
+
+
+def _via_config(c, base):
+    """the format CommandConfig.build_args_format(base) makes of the case's command configuration"""
+    from clikit.api.config.command_config import CommandConfig
+    cn, anon, os_, as_ = c["cfg"]
+    cfg = CommandConfig(cn[0])
+    for a in cn[1]:
+        cfg.add_alias(a)
+    if anon:
+        cfg.anonymous()
+    for o in os_:
+        cfg.add_option(o[0], o[1], 0)
+    for a in as_:
+        cfg.add_argument(a[0], a[1])
+    return cfg.build_args_format(base)
 
 
 def run_impl(c):
@@ -144,7 +197,11 @@ def run_impl(c):
     for oi, o in enumerate(c["ops"]):
         k, x = o
         e = None
-        pre = qvec(b) if (k <= 3 and (c.get("every", 1) or oi == len(c["ops"]) - 1)) else None
+        observed = c.get("every", 1) or oi == len(c["ops"]) - 1
+        pre = qvec(b) if (k <= 3 and observed) else None
+        # the format finished BEFORE this op, and what it answers now ...
+        fin = b.format if observed else None
+        fin_v = qvec(fin) if observed else None
         try:
             if k == 0:
                 b.add_option(_mk(o))
@@ -160,13 +217,17 @@ def run_impl(c):
                 [b.set_options, b.set_command_options, b.set_arguments, b.set_command_names][k - 4](*objs)
         except Exception as ex:
             e = exc_code(ex)
-        if c.get("every", 1) or oi == len(c["ops"]) - 1:
-            steps.append([[] if e is None else [e], qvec(b), qvec(b.format), pre])
+        if observed:
+            # ... and after the builder moved on
+            steps.append([[] if e is None else [e], qvec(b), qvec(b.format), pre, 1 if qvec(fin) == fin_v else 0])
         else:
             steps.append([[] if e is None else [e]])
     tail = []
     if add_only:
         tail = [_res(lambda: ArgsFormat([_mk(o) for o in c["ops"]], base), qvec)]
+    if c.get("cfg"):
+        # what the model's ArgsFormat(elements, base) is compared with is the format built through the configuration
+        return [0, steps, [_res(lambda: _via_config(c, base), qvec)], tail]
     return [0, steps, tail]
 
 
@@ -174,6 +235,16 @@ def canon_impl(c, o):
     if o[0] != 0:
         return o
     return [o[0], [st[:3] for st in o[1]], o[2]]
+
+
+def _names_of(e):
+    """every name an option / command option goes by"""
+    k, x = e
+    if k == 0:
+        return [unS(x[0])] + [unS(s) for s in x[1]]
+    if k == 1:
+        return [unS(x[0])] + [unS(s) for s in x[1]] + [unS(a) for a in x[2]] + [unS(a) for a in x[3]]
+    return []
 
 
 def _wf(v):
@@ -196,10 +267,12 @@ def _wf(v):
             return "required-argument-after-optional"
     for half in v:
         names = [a[0] for a in half[7]]
-        for i, (h, g) in enumerate(half[6]):
-            exp = i < len(names)
+        for i, (h, g) in zip(POSITIONS, half[6]):
+            exp = 0 <= i < len(names)
             if bool(h) != exp or (exp and g != [0, names[i]]) or (not exp and g[0] == 0):
                 return "positional-lookup-disagrees-with-listing"
+            if not exp and g != [-1, 4]:
+                return "positional-lookup-wrong-exception:%d" % g[1]
         for n, (h, g) in zip(POOL, half[5]):
             if bool(h) != (S(n) in names) or (h and g != [0, S(n)]):
                 return "named-argument-lookup-disagrees-with-listing"
@@ -217,18 +290,42 @@ def oracle(c, o):
         return "base-construction-failed:%d" % o[1]
     prev = None
     any_err = False
+    # every name the base levels and the accepted additions so far use for an option or a command option (tracked while
+    # the history has additions only: a replacement drops an unknown part of it)
+    taken = set(n for lvl in c["bases"] for el in lvl for n in _names_of(el))
     for op, st in zip(c["ops"], o[1]):
         e = st[0]
         if e and e[0] not in (5, 6):
             return "wrong-exception:%d" % e[0]
         if e:
             any_err = True
+        if taken is not None:
+            if op[0] > 3:
+                taken = None
+            elif not e:
+                mine = _names_of(op)
+                if any(n in taken for n in mine):
+                    return "accepted-a-name-that-already-identifies-an-option"
+                taken.update(mine)
         if len(st) == 1:
             prev = None
             continue
-        e, bv, fv, pre = st
+        e, bv, fv, pre, fin_same = st
         if e and op[0] <= 3 and pre is not None and bv != pre:
             return "rejected-add-changed-builder"
+        if not fin_same:
+            return "finished-format-changed-when-its-builder-moved-on"
+        if op[0] >= 4:
+            # a replacement: what the builder lists of its own afterwards is what it was handed (up to the rejected
+            # element, when one was rejected) - nothing older survives
+            own = bv[1]
+            given = [unS(y[0]) for y in op[1]]
+            listed = {4: [unS(n) for n in own[10]], 5: [unS(n) for n in own[3]], 6: [unS(a[0]) for a in own[7]],
+                      7: [unS(n[0]) for n in own[0]]}[op[0]]
+            if op[0] == 5:
+                listed = [n for i, n in enumerate(listed) if n not in listed[:i]]      # listed once per name and alias
+            if (listed != given) if not e else (listed != given[:len(listed)]):
+                return "replacement-keeps-or-loses-elements"
         if bv != fv:
             return "format-disagrees-with-builder"
         w = _wf(bv)
@@ -241,6 +338,8 @@ def oracle(c, o):
             return "element-constructor-rules-differ"
         if r[0] == 0 and o[1] and r[1] != o[1][-1][2]:
             return "element-constructor-format-differs"
+    if c.get("cfg") and o[3] and o[3][0] != o[2][0]:
+        return "configuration-built-format-differs-from-element-constructor"
     return None
 
 
@@ -254,6 +353,8 @@ def nontrivial_key(c, o):
 
 def shrink(c):
     ops = c["ops"]
+    if c.get("cfg"):
+        return
     for i in range(len(ops)):
         yield {"bases": c["bases"], "ops": ops[:i] + ops[i + 1:], "every": 1}
     if c["bases"]:
